@@ -476,3 +476,80 @@ Proof.
     rewrite dquote_must_quote in N1. discriminate.
   - unfold quote in H. rewrite N1, N2 in H. exact H.
 Qed.
+
+(* ---- the chunked C loop equals the byte-wise quote ------------------------------------------ *)
+
+Lemma nqp_all fully p : next_quote_pos fully p = length p -> needs_quote fully p = false.
+Proof.
+  induction p as [|c r IH]; intros H; [reflexivity|].
+  cbn [next_quote_pos length] in H. cbn [needs_quote existsb].
+  destruct (cq_must_quote fully c); [discriminate|]. injection H as H. exact (IH H).
+Qed.
+
+Lemma nqp_le fully p : next_quote_pos fully p <= length p.
+Proof.
+  induction p as [|c r IH]; cbn [next_quote_pos length]; [lia|].
+  destruct (cq_must_quote fully c); lia.
+Qed.
+
+Lemma quote_body_plain fully p : needs_quote fully p = false -> quote_body fully p = p.
+Proof.
+  induction p as [|c r IH]; intros H; [reflexivity|].
+  cbn [needs_quote existsb] in H. apply Bool.orb_false_iff in H. destruct H as [H1 H2].
+  cbn [quote_body]. rewrite H1. f_equal. exact (IH H2).
+Qed.
+
+(* split at the first byte that must be quoted *)
+Lemma nqp_split fully p : next_quote_pos fully p <> length p ->
+  exists ch p', skipn (next_quote_pos fully p) p = ch :: p'
+    /\ cq_must_quote fully ch = true
+    /\ needs_quote fully (firstn (next_quote_pos fully p) p) = false
+    /\ p = firstn (next_quote_pos fully p) p ++ ch :: p'.
+Proof.
+  induction p as [|c r IH]; intros H; [cbn in H; congruence|].
+  cbn [next_quote_pos length] in *. destruct (cq_must_quote fully c) eqn:E.
+  - exists c, r. cbn [skipn firstn app]. repeat split. exact E.
+  - destruct IH as (ch & p' & H1 & H2 & H3 & H4); [congruence|].
+    exists ch, p'. cbn [skipn firstn app needs_quote existsb]. rewrite E.
+    repeat split; try assumption. f_equal. exact H4.
+Qed.
+
+Lemma quote_body_app fully a b : quote_body fully (a ++ b) = quote_body fully a ++ quote_body fully b.
+Proof.
+  induction a as [|c a IH]; [reflexivity|]. cbn [app quote_body].
+  destruct (cq_must_quote fully c); rewrite IH; cbn [app]; rewrite ?app_assoc; reflexivity.
+Qed.
+
+Lemma qcs_loop_spec : forall fuel fully p at_start sb, length p < fuel ->
+  qcs_loop fuel fully p at_start sb =
+  Some (if needs_quote fully p
+        then ((if at_start then sb ++ [x22] else sb) ++ quote_body fully p, false)
+        else (sb ++ p, at_start)).
+Proof.
+  induction fuel as [|fuel IH]; intros fully p at_start sb Hf; [lia|].
+  cbn [qcs_loop]. destruct (Nat.eqb (next_quote_pos fully p) (length p)) eqn:E.
+  - apply Nat.eqb_eq in E. rewrite (nqp_all _ _ E), E, firstn_all. reflexivity.
+  - apply Nat.eqb_neq in E. destruct (nqp_split fully p E) as (ch & p' & H1 & H2 & H3 & H4).
+    rewrite H1. 
+    assert (Lp : length p' < fuel).
+    { rewrite H4 in Hf. rewrite app_length in Hf. cbn [length] in Hf. lia. }
+    rewrite IH by exact Lp.
+    assert (N : needs_quote fully p = true).
+    { rewrite H4. unfold needs_quote. rewrite existsb_app. cbn [existsb]. rewrite H2.
+      rewrite Bool.orb_true_r. reflexivity. }
+    rewrite N.
+    assert (Q : quote_body fully p =
+                firstn (next_quote_pos fully p) p ++ [x5c] ++ escape_of ch ++ quote_body fully p').
+    { rewrite H4 at 1. rewrite quote_body_app, (quote_body_plain _ _ H3). cbn [quote_body]. rewrite H2.
+      reflexivity. }
+    rewrite Q. set (pre := firstn (next_quote_pos fully p) p). set (sb0 := if at_start then sb ++ [x22] else sb).
+    destruct (needs_quote fully p') eqn:N'.
+    + rewrite <- !app_assoc. reflexivity.
+    + rewrite (quote_body_plain _ _ N'). rewrite <- !app_assoc. reflexivity.
+Qed.
+
+Lemma git_quote_c_style_quote fully name : git_quote_c_style fully name = Some (quote fully name).
+Proof.
+  unfold git_quote_c_style, quote. rewrite qcs_loop_spec by lia.
+  destruct (needs_quote fully name); cbn [app]; reflexivity.
+Qed.
